@@ -135,6 +135,11 @@ Proof.
     { intros q Hq. split; [discriminate|]. unfold rest_of; simpl; lia. }
     destruct (fine_fstage fuel (exec fm fuel s p) _ (List.length p) Hrel Hp B1 B2) as [G1 G2].
     unfold pre, out_of, rest_of in *; simpl. split; assumption.
+  - (* acquire with timeout *)
+    intros p Hp. pose proof (pop_len p) as Hl. destruct (pop p) as [b p'] eqn:E. simpl in Hl.
+    destruct b.
+    + destruct (IHs p') as [H1 H2]; [lia|]. unfold pre, out_of, rest_of in *; simpl. split; [exact H1|lia].
+    + split; [discriminate|]. unfold rest_of; simpl. exact Hl.
 Qed.
 
 Lemma run_no_fuel fm s p : out_of (run fm s p) <> OFuel.
@@ -403,6 +408,15 @@ Proof.
     apply good_fstage; [apply IHs|].
     intros ax q Hok _. destruct (tf ax KRel) as [a2|] eqn:E2; [|discriminate].
     exists a2. unfold evs_of, out_of; simpl. rewrite E2. split; [reflexivity|left; reflexivity].
+  - (* acquire with timeout *)
+    intros Hok Hf. apply runion_ok in Hok as [Ok1 Ok2].
+    destruct (pop p) as [b p']. destruct b.
+    + destruct (tf a0 (KAct XAcqFail)) as [a1|] eqn:E; [|discriminate].
+      destruct (good_pre a0 a1 _ ln _ _ E (IHs fuel p' a1) Ok2 Hf) as [a' [A1 A2]].
+      exists a'. split; [exact A1|]. apply sel_runion_r. exact A2.
+    + destruct (tf a0 KAcq) as [a1|] eqn:E; [|discriminate].
+      exists a1. unfold evs_of, out_of; simpl. rewrite E. split; [reflexivity|].
+      left; reflexivity.
 Qed.
 
 End Sound.
